@@ -93,8 +93,8 @@ Proof.
     try (apply andb_true_iff in H; destruct H as [_ H]); apply Z.eqb_eq; exact H.
 Qed.
 
-(* the update revision carries no numeric hash label (the names the controller generates are safe-encoded and
-   never parse as a decimal number): it is then equal to whatever is equal to a revision equal to it *)
+(* the update revision carries no numeric hash label (safe-encoded FNV sums rarely parse as an int32, about one
+   template in 400): it is then equal to whatever is equal to a revision equal to it *)
 Lemma equal_revision_via l e fresh : hash_num l = None ->
   equal_revision l e = true -> equal_revision e fresh = true -> equal_revision l fresh = true.
 Proof.
